@@ -7,10 +7,12 @@
   `run_inv`) for every world reachable by any history — and lift this to whole histories as a
   refinement of the reference map `Ref`.
 
-  `clone`, `clone_from` and serialize+deserialize involve a second world; their map-level
-  statements are in C10 / C06 and the correspondence check covers them for C01.
+  `clone`, `clone_from` and serialize+deserialize involve a second world; `C01_copies` collects
+  their map-level statements (proved in C10 / C06), and `C01_reachable` states the map view's
+  consistency for every world reachable through any mix of these operations.
 -/
 import BroodModel.Lemmas.Entity
+import BroodModel.Lemmas.Reach
 
 namespace Brood
 
@@ -255,6 +257,31 @@ theorem C01_refinement (n : Nat) (res : List Val) (ops : List Op) (hwt : ∀ op 
   rw [← hinit]
   exact key ops _ (inv_init n res) rfl hwt h
 
+/-- **Every reachable world** — any history over any number of worlds, including clones,
+`clone_from` destinations and worlds deserialized from arbitrary input — is a consistent map:
+`len()` is the number of live identifiers, `is_empty()` says there is none, `contains` / `entry`
+agree with the map, and every admissible operation keeps behaving as the reference map says. -/
+theorem C01_reachable {w : World} (h : Reachable w) :
+    (∃ l : List Ident, l.Nodup ∧ l.length = w.len ∧ ∀ id, id ∈ l ↔ (w.entity id).isSome) ∧
+    (w.isEmpty = true ↔ ∀ id, w.entity id = none) ∧
+    (∀ id, w.contains id = (w.entity id).isSome) ∧
+    (∀ op w', op.wt w.n → step w op = .ok w' → RefStep w.n w.entity w'.entity op) := by
+  have hi := reachable_inv h
+  exact ⟨(C01_len hi).1, (C01_len hi).2, fun id => (C01_contains hi id).1,
+    fun op w' hwt e => C01_step_refines hi hwt e⟩
+
+/-- **Copies hold the same map**: a clone and a `clone_from` destination hold exactly the
+source's entities — same identifiers, copied values — with the same `len`, whatever the
+destination held before. -/
+theorem C01_copies {d s : World} (hd : Inv d) (hs : Inv s) (hn : d.n = s.n) (e next : Nat) :
+    (∃ c, s.clone e next = .ok c ∧ c.len = s.len ∧
+      ∀ id, c.entity id = (s.entity id).map (fun vs => vs.map (cloneVal e))) ∧
+    (∃ fin drops, World.cloneFrom d s e = .ok (fin, drops) ∧ fin.len = s.len ∧
+      ∀ id, fin.entity id = (s.entity id).map (fun vs => vs.map (cloneVal e))) := by
+  obtain ⟨c, h1, _, _, h4, h5, _⟩ := clone_spec hs e next
+  obtain ⟨fin, drops, g1, _, _, g4, _, g6⟩ := cloneFrom_spec hd hs hn e
+  exact ⟨⟨c, h1, h4, h5⟩, ⟨fin, drops, g1, g4, g6⟩⟩
+
 /-- Non-vacuity: the map of a concrete reachable world. -/
 example :
     let w := run (World.init 3 [])
@@ -281,3 +308,5 @@ end Brood
 #print axioms Brood.C01_insert_order_irrelevant
 #print axioms Brood.C01_step_refines
 #print axioms Brood.C01_refinement
+#print axioms Brood.C01_reachable
+#print axioms Brood.C01_copies
